@@ -151,6 +151,9 @@ func (s *JavaFullListener) EnterImportDeclaration(ctx *parser.ImportDeclarationC
 func (s *JavaFullListener) EnterClassDeclaration(ctx *parser.ClassDeclarationContext) {
 	if currentNode.NodeName != "" {
 		classNodeQueue = append(classNodeQueue, *currentNode)
+		// the member type is built in a node of its own: currentNode may be an element of the queue
+		memberNode := *currentNode
+		currentNode = &memberNode
 		currentType = "InnerStructures"
 	} else {
 		currentType = "Class"
